@@ -68,8 +68,8 @@ class HistogramND(HistogramBase):
                 f"The length of axis names ({len(self.axis_names)}) must be equal to histogram dimension ({self.ndim})."
             )
 
-        # Missed values
-        self._missed = np.array([missed], dtype=self.dtype)
+        # Missed values (a scalar; the exported form is a one-item list)
+        self._missed = np.array(missed, dtype=self.dtype).reshape(-1)[:1]
 
     @property
     def bins(self) -> List[np.ndarray]:
